@@ -96,8 +96,82 @@ def across_reset(ctx):
                     w.shutdown()
 
 
+def coincidence_and_scale(ctx):
+    """(a) a blocking request issued in the very loop iteration in which the one in flight ends (its response has been
+    read, its task not yet resumed), with another blocking request already queued: the queued one goes first, and only
+    one is past the lock at a time; (b) many blocking requests outstanding (one in flight, the others queued, nothing of
+    theirs on the wire): a request that is not blocking is still written at once."""
+    import hostworld
+    import streams
+    K = hostworld.kinds()
+    # (a)
+    for how in ("response", "cancel"):
+        for kinds in (("G", "P", "W"), ("G", "G", "P"), ("W", "P", "G")):
+            w = hostworld.HostWorld()
+            try:
+                ka, kb, kd = kinds
+                w.start(1, K[ka][0](1), 9.0)
+                for _ in range(4):
+                    w.rx(streams.ack(priv.pack_seq(w.p)))
+                w.start(2, K[kb][0](2), 9.5)
+                # same iteration: A's end is caused, D is issued, only then the loop runs
+                if how == "response":
+                    w.p.data_received(bytes(hostworld.rsp_bytes(K[ka][1], 1, 1, **K[ka][2])))
+                else:
+                    w.tasks[1].cancel()
+                w.start(3, K[kd][0](3), 9.9)
+                for _ in range(30):
+                    if all(tk.done() for tk in w.tasks.values()):
+                        break
+                    w.rx(streams.ack(priv.pack_seq(w.p)))
+                    if not any(not tk.done() for tk in w.tasks.values()):
+                        break
+                    if _ % 3 == 2:
+                        w.tick()
+                firsts, active, bad = [], None, None
+                for e in w.log:
+                    if e.startswith("W") and "#" in e:
+                        rid = int(e.rsplit("#", 1)[1])
+                        raw = bytes.fromhex(e[1:].split("#")[0])
+                        if raw[5] & 1 or rid not in (1, 2, 3):
+                            continue
+                        if rid not in firsts:
+                            firsts.append(rid)
+                inp = dict(ends_by=how, kinds="".join(kinds))
+                ctx.case(("same-iteration-start", how, kinds), nontrivial=True, sample=dict(inp, first_writes=firsts, ends=[e for e in w.log if e.startswith("D")]))
+                ctx.count("same-iteration-start")
+                odd = [e for e in w.log if e.startswith("D") and e.split("=")[1] not in ("RET", "CANCELLED", "TimeoutError")]
+                if firsts != sorted(firsts):
+                    ctx.counterexample("blocking-not-fifo", inp, sorted(firsts), firsts,
+                                       "a blocking request issued in the iteration in which another one ends overtakes the one already queued")
+                elif odd:
+                    ctx.counterexample("blocking-request-failed", inp, "requests end by response / timeout / cancellation", odd,
+                                       "a blocking request ends with an internal error")
+            finally:
+                w.shutdown()
+    # (b)
+    for n in (8, 17, 24):
+        w = hostworld.HostWorld()
+        try:
+            for i in range(1, n + 1):
+                w.start(i, K["G" if i % 2 else "P"][0](i), 20.0 + i)
+            w.rx(streams.ack(priv.pack_seq(w.p)))
+            m = w.mark()
+            w.start(n + 1, K["Z"][0](n + 1), 5.0)          # not blocking
+            wrote = [e for e in w.log[m:] if e.startswith("W") and e.endswith("#%d" % (n + 1))]
+            inp = dict(blocking_requests_outstanding=n)
+            ctx.case(("many-blocking", n), nontrivial=True, sample=dict(inp, written_at_once=bool(wrote)))
+            ctx.count("many-blocking-outstanding")
+            if not wrote:
+                ctx.counterexample("nonblocking-waits", inp, "written at once", [e[:12] for e in w.log[m:]][:4],
+                                   "a request that is not blocking waits although only blocking requests are outstanding and the link is free")
+        finally:
+            w.shutdown()
+
+
 def run(ctx):
     across_reset(ctx)
+    coincidence_and_scale(ctx)
     ctx.rule = ("(a) scenarios: a multi-fragment request fully acknowledged and waiting for its response, then a request of "
                 "another command: it must be written in the same step; (b) random schedules of 2..4 mixed requests with "
                 "ACK / response timing, timeouts, cancellations; non-trivial = >= 2 requests and >= 4 event kinds")
